@@ -504,6 +504,141 @@ theorem toWireO_roundtrip (n o : Name) (hn : WfName n) (hr : isAbs n = false) (h
     have h1 : (toWire n ++ toWire o).length > Consts.maxName := by rw [hlen]; exact hgt
     rw [henc, henc, if_pos h1]
 
+/-- the derelativized label sequence of a well-formed relative name against a well-formed absolute origin is
+a well-formed absolute name as soon as it fits in 255 octets -/
+theorem wf_append_origin (n o : Name) (hn : WfName n) (hr : isAbs n = false) (ho : WfName o)
+    (hoa : isAbs o = true) (hle : wireLen (n ++ o) ≤ Consts.maxName) :
+    WfName (n ++ o) ∧ isAbs (n ++ o) = true := by
+  have hone : o ≠ [] := by intro e; subst e; simp [isAbs] at hoa
+  constructor
+  · refine ⟨?_, hle, ?_⟩
+    · intro l hl
+      rcases List.mem_append.mp hl with h | h
+      · exact hn.1 l h
+      · exact ho.1 l h
+    · intro l hl
+      have : (n ++ o).dropLast = n ++ o.dropLast := List.dropLast_append_of_ne_nil hone
+      rw [this] at hl
+      rcases List.mem_append.mp hl with h | h
+      · exact rel_labels_nonempty n hn hr l h
+      · exact ho.2.2 l h
+  · unfold isAbs at hoa ⊢
+    have : (n ++ o).getLast? = o.getLast? := by
+      rw [List.getLast?_append]
+      cases h : o.getLast? with
+      | none => simp [List.getLast?_eq_none_iff] at h; exact absurd h hone
+      | some x => simp
+    rw [this]; exact hoa
+
+/-- an over-long combination of two well-formed names is refused by the constructor with NameTooLong (no
+label is too long, so the scan for LabelTooLong finds nothing first) -/
+theorem validate_append_too_long (n o : Name) (hn : WfName n) (ho : WfName o)
+    (hgt : wireLen (n ++ o) > Consts.maxName) : validate (n ++ o) = .error .nameTooLong := by
+  unfold validate
+  have h1 : (n ++ o).any (fun l => decide (l.length > Consts.maxLabel)) = false := by
+    rw [List.any_eq_false]
+    intro l hl
+    have : l.length ≤ Consts.maxLabel := by
+      rcases List.mem_append.mp hl with h | h
+      · exact hn.1 l h
+      · exact ho.1 l h
+    simp; omega
+  rw [h1]; simp [hgt]
+
+/-- The file-writing path `Name.to_wire(file, compress=None, origin=…)` (what `Rdata.to_wire(file, origin=…)`
+and the renderer use): at any file position, a relative name against an absolute origin is written as the
+uncompressed encoding of name + origin — decoding at the start position returns exactly those labels and
+consumes exactly the octets written — and the call raises NameTooLong, writing nothing, exactly when that
+name would exceed 255 octets. -/
+theorem toWireF_plain_roundtrip (out : Bytes) (n o : Name) (hn : WfName n) (hr : isAbs n = false)
+    (ho : WfName o) (hoa : isAbs o = true) :
+    (wireLen (n ++ o) ≤ Consts.maxName →
+      ∃ ext, toWireF out none n (some o) false = .ok (out ++ ext, none) ∧
+        fromWire (out ++ ext) out.length = .ok (n ++ o, ext.length)) ∧
+    (wireLen (n ++ o) > Consts.maxName → toWireF out none n (some o) false = .error .nameTooLong) := by
+  constructor
+  · intro hle
+    obtain ⟨hwf, habs⟩ := wf_append_origin n o hn hr ho hoa hle
+    refine ⟨toWire (n ++ o), ?_, ?_⟩
+    · simp only [toWireF, hr, Bool.false_eq_true, if_false, hoa, if_true, validate_of_wf _ hwf]
+    · have := fromWire_toWire (n ++ o) hwf habs out []
+      simpa using this
+  · intro hgt
+    simp only [toWireF, hr, Bool.false_eq_true, if_false, hoa, if_true,
+      validate_append_too_long n o hn ho hgt]
+
+/-- Closure of the file-writing path for every table, origin, position and flag combination: on well-formed
+operands it either raises NeedAbsoluteNameOrOrigin or NameTooLong, or it succeeds and then the label
+sequence it wrote is a well-formed absolute name (≤ 63 per label, ≤ 255 in all) — the name itself or
+name + origin; without a table the octets appended are exactly that name's uncompressed encoding
+(lower-cased iff canonical form was asked for). -/
+theorem toWireF_closed (out : Bytes) (t : Option CTable) (n : Name) (origin : Option Name) (canon : Bool)
+    (hn : WfName n) (ho : ∀ o, origin = some o → WfName o) :
+    (∃ r full, toWireF out t n origin canon = .ok r ∧ WfName full ∧ isAbs full = true ∧
+        (full = n ∨ ∃ o, origin = some o ∧ full = n ++ o) ∧
+        (t = none → r.1 = out ++ toWire (if canon then lowerName full else full))) ∨
+    toWireF out t n origin canon = .error .needAbsolute ∨
+    toWireF out t n origin canon = .error .nameTooLong := by
+  by_cases ha : isAbs n = true
+  · left
+    cases t with
+    | none =>
+      refine ⟨(out ++ toWire (if canon then lowerName n else n), none), n, ?_, hn, ha, Or.inl rfl, fun _ => rfl⟩
+      simp only [toWireF, ha, if_true, validate_of_wf _ hn]
+    | some tb =>
+      refine ⟨((toWireCLoop out tb (if canon then lowerName n else n)).1,
+        some (toWireCLoop out tb (if canon then lowerName n else n)).2), n, ?_, hn, ha, Or.inl rfl,
+        fun h => by cases h⟩
+      simp only [toWireF, ha, if_true, validate_of_wf _ hn]
+  · have hr : isAbs n = false := by simpa using ha
+    cases origin with
+    | none => right; left; simp [toWireF, hr]
+    | some o =>
+      by_cases hoa : isAbs o = true
+      · by_cases hle : wireLen (n ++ o) ≤ Consts.maxName
+        · obtain ⟨hwf, habs⟩ := wf_append_origin n o hn hr (ho o rfl) hoa hle
+          left
+          cases t with
+          | none =>
+            refine ⟨(out ++ toWire (if canon then lowerName (n ++ o) else (n ++ o)), none), n ++ o, ?_, hwf, habs,
+              Or.inr ⟨o, rfl, rfl⟩, fun _ => rfl⟩
+            simp only [toWireF, hr, Bool.false_eq_true, if_false, hoa, if_true, validate_of_wf _ hwf]
+          | some tb =>
+            refine ⟨((toWireCLoop out tb (if canon then lowerName (n ++ o) else (n ++ o))).1,
+              some (toWireCLoop out tb (if canon then lowerName (n ++ o) else (n ++ o))).2), n ++ o, ?_, hwf, habs,
+              Or.inr ⟨o, rfl, rfl⟩, fun h => by cases h⟩
+            simp only [toWireF, hr, Bool.false_eq_true, if_false, hoa, if_true, validate_of_wf _ hwf]
+        · right; right
+          have hgt : wireLen (n ++ o) > Consts.maxName := by omega
+          simp only [toWireF, hr, Bool.false_eq_true, if_false, hoa, if_true,
+            validate_append_too_long n o hn (ho o rfl) hgt]
+      · right; left
+        have : isAbs o = false := by simpa using hoa
+        simp [toWireF, hr, this]
+
+/-- The file-writing path with a compression table and an origin: against any sound table at any position,
+a relative name + absolute origin that fits is written so that the output and the table only grow, every
+table entry stays decodable to its key, and decoding at the start position consumes exactly what was
+written and yields name + origin up to ASCII case. -/
+theorem toWireF_compress_sound (out : Bytes) (tbl : CTable) (n o : Name) (hn : WfName n)
+    (hr : isAbs n = false) (ho : WfName o) (hoa : isAbs o = true)
+    (hle : wireLen (n ++ o) ≤ Consts.maxName) (hs : TableSound lowEq out tbl) :
+    ∃ ext new, toWireF out (some tbl) n (some o) false = .ok (out ++ ext, some (tbl ++ new)) ∧
+      TableSound lowEq (out ++ ext) (tbl ++ new) ∧
+      ∃ m, fromWire (out ++ ext) out.length = .ok (m, ext.length) ∧ lowerName m = lowerName (n ++ o) := by
+  obtain ⟨hwf, habs⟩ := wf_append_origin n o hn hr ho hoa hle
+  obtain ⟨ext, new, h1, h2, h3⟩ := toWireC_sound out tbl (n ++ o) hwf habs hs
+  refine ⟨ext, new, ?_, h2, h3⟩
+  simp only [toWireC, habs, if_true] at h1
+  have h1' : toWireCLoop out tbl (n ++ o) = (out ++ ext, tbl ++ new) := by
+    injection h1
+  simp only [toWireF, hr, Bool.false_eq_true, if_false, hoa, if_true, validate_of_wf _ hwf, h1']
+
+/-- non-vacuity: a 183-octet relative name fits against `Ex.`; against a 123-octet origin it does not -/
+example : wireLen (List.replicate 3 (List.replicate 60 97) ++ [[69, 120], []]) ≤ Consts.maxName ∧
+    wireLen (List.replicate 3 (List.replicate 60 97) ++ (List.replicate 2 (List.replicate 60 97) ++ [[]])) > Consts.maxName := by
+  constructor <;> decide +kernel
+
 /-- non-vacuity: `www` against `Example.` -/
 example : WfName [[119, 119, 119]] ∧ isAbs [[119, 119, 119]] = false ∧ WfName [[69, 120], []] ∧ isAbs [[69, 120], []] = true := by
   refine ⟨⟨?_, ?_, ?_⟩, by decide, ⟨?_, ?_, ?_⟩, by decide⟩ <;> decide
